@@ -20,7 +20,11 @@ scalar / ndarray / Series agreement, the strains.  EVERY clause is evaluated for
 known finding is noted (`Prop.known`) and the element is left out of the later clauses, the examination goes on.
 
 No C06 finding is open today (all recorded solver classes are fixed: c6e709f, ba2ed2a, de286fc, b50f603, 4ade39c, e1dd979,
-bb99960, 805617f; the follow-up 8e3c607 removed a bias of the b50f603 bisection that stayed inside the tolerance).  The RECORDED classes stay tied to their mechanism: `legacy_solver` reproduces the solver algorithm of the
+bb99960, 805617f; two follow-ups to our own repairs: 8e3c607 removed a bias of the b50f603 bisection that stayed inside the
+tolerance - class `seegerbeste-bisection-bias`, a label of the record only, the oracle never emits it -, and 8ef27f5 lets
+array-valued K_p / E / K' / n' broadcast against an n-d load again, which the np.ravel of 8e3c607 had stopped - class
+`seegerbeste-ndim`, emitted by the 2-d clause `_oracle_ndim`; ten fix commits).  The classes RECORDED ON THE ORIGINAL TREE
+stay tied to their mechanism: `legacy_solver` reproduces the solver algorithm of the
 tree the findings were recorded on (scipy's vectorised / scalar secant resp. Newton iteration with the recorded start values
 and iteration limits, run on the law's own defining functions); a miss belongs to a recorded class only if the value the code
 returned IS the value of that reproduction (1e-12 relative), and it is tolerated only while that class has status "open" in
